@@ -95,6 +95,27 @@ def post_markup(V):
                                      'value': v + ' (tainted)', 'got': str(got)[:200]})
 
 
+def post_cformats(V):
+    """C-style fmt= strings the untrusted value does not fit (a number format, several or no conversions): the tag may refuse
+    the value or format it -- its '<' must not come out raw"""
+    from AccessControl.tainted import TaintedString
+    from DocumentTemplate.DT_HTML import HTML
+    from DocumentTemplate.DT_String import String
+    for fmt in ('%d', '%05d', '%.2f', '%x', '%s %s', 'no conversion', '%(a)s', '%c', '%5.1s', '%r', '%%', '%10s|'):
+        for tail in ('', ' html_quote', ' upper', ' size=200', ' null=n', ' url_unquote', ' thousands_commas'):
+            for cls, src in ((HTML, '<dtml-var x fmt="%s"%s>' % (fmt, tail)), (HTML, '<dtml-var expr="x" fmt="%s"%s>' % (fmt, tail)),
+                             (String, '%%(x fmt="%s"%s)s' % (fmt, tail))):
+                for v in ('<Q>alert(1)</Q>', '12<Q', '<'):
+                    V.count('renderings')
+                    try:
+                        got = str(cls(src)(x=TaintedString(v)))
+                    except Exception:  # noqa  refusing the value emits nothing
+                        continue
+                    if '<' in got.replace('&lt;', ''):
+                        V.violation({'kind': 'departure', 'clause': 'raw-lt', 'cls': 'c-format-misfit', 'source': src,
+                                     'value': v + ' (tainted)', 'got': got[:200]})
+
+
 def post_wrappers(V):
     """results of the string helper wrappers (DT_Util.StringModuleWrapper) computed from an untrusted argument are untrusted
     too: inserted as the direct result of an expression they are escaped"""
@@ -122,6 +143,7 @@ def main(tier):
     def both(V):
         post(V)
         post_markup(V)
+        post_cformats(V)
         post_wrappers(V)
     return vc.run(PID, tier, sweeps(tier), classify, post=both,
                   invs=['NoRawLT', 'OnceNotTwice', 'NoRawSpecial', 'TruncBound'],
